@@ -3,7 +3,7 @@ C08 — SBML export then import reproduces the model, or export fails.
 Theorems about the executable model of `mxlpy/sbml/_export.py` (Model/C08Export.lean, tables generated
 from the repo's source) against the two declarative semantics of Model/C08Sem.lean / C08Doc.lean.
 -/
-import MxlVerif.Lemmas.C08
+import MxlVerif.Lemmas.C08Roundtrip
 namespace Mxl.C08
 open Gen
 
@@ -11,252 +11,8 @@ open Gen
     a value, the SBML reading of the exported MathML tree has the same value — in every environment
     and for every interpretation of the transcendental functions. -/
 theorem C08_math_sound (I : Interp) (env : VEnv) :
-    ∀ e m v, convert e = .ok m → evalPy I env e = some v → evalMath I env m = some v := by
-  refine (renameExpr.mutual_induct
-    (motive_1 := fun e => ∀ m v, convert e = .ok m → evalPy I env e = some v → evalMath I env m = some v)
-    (motive_2 := fun es => ∀ ms vs, convertList es = .ok ms → evalPyList I env es = some vs →
-      evalMathList I env ms = some vs)
-    (motive_3 := fun rest => ∀ pm pv ms v, evalMath I env pm = some pv → convertLinks pm rest = .ok ms →
-      evalPyLinks I env pv rest = some v → evalAnd I env ms = some v)
-    ?name ?const ?unary ?binop ?compare ?ifexp ?call ?attr ?attrDeep ?boolop ?other
-    ?lnil ?lcons ?nil ?cons).1
-  case name =>
-    intro id m v hc hp
-    simp only [convert, Except.ok.injEq] at hc
-    subst hc
-    simpa [evalPy, evalMath] using hp
-  case const =>
-    intro c m v hc hp
-    cases c with
-    | num q => simp [convert, convertConst] at hc; subst hc; simpa [evalPy, evalMath] using hp
-    | bool b =>
-      cases b <;> simp [convert, convertConst] at hc <;> subst hc <;> simpa [evalPy, evalMath] using hp
-    | other => simp [convert, convertConst] at hc
-  case unary =>
-    intro op e ih m v hc hp
-    simp only [convert] at hc
-    obtain ⟨m1, h1, hc⟩ := except_bind_ok hc
-    obtain ⟨t, ht, hc⟩ := except_bind_ok hc
-    simp only [pure, Except.pure, Except.ok.injEq] at hc
-    subst hc
-    simp only [evalPy] at hp
-    obtain ⟨v1, hv1, hp⟩ := option_bind_some hp
-    obtain ⟨hl, ha⟩ := unaryOp_sound I ht hp
-    rw [evalMath_strict I env t _ hl]
-    simp [evalMathList, ih m1 v1 h1 hv1, ha]
-  case binop =>
-    intro op l r ihl ihr m v hc hp
-    simp only [convert] at hc
-    obtain ⟨a, ha, hc⟩ := except_bind_ok hc
-    obtain ⟨b, hb, hc⟩ := except_bind_ok hc
-    obtain ⟨t, ht, hc⟩ := except_bind_ok hc
-    simp only [pure, Except.pure, Except.ok.injEq] at hc
-    subst hc
-    simp only [evalPy] at hp
-    obtain ⟨va, hva, hp⟩ := option_bind_some hp
-    obtain ⟨vb, hvb, hp⟩ := option_bind_some hp
-    simp only [Option.map_eq_some_iff] at hp
-    obtain ⟨q, hq, rfl⟩ := hp
-    obtain ⟨hl, hs⟩ := binOp_sound I ht hq
-    rw [evalMath_strict I env t _ hl]
-    simp [evalMathList, ihl a va ha hva, ihr b vb hb hvb, hs]
-  case compare =>
-    intro l op r rest ihl ihr ihrest m v hc hp
-    simp only [convert] at hc
-    obtain ⟨t, ht, hc⟩ := except_bind_ok hc
-    obtain ⟨a, ha, hc⟩ := except_bind_ok hc
-    obtain ⟨b, hb, hc⟩ := except_bind_ok hc
-    obtain ⟨tl, htl, hc⟩ := except_bind_ok hc
-    simp only [evalPy] at hp
-    obtain ⟨va, hva, hp⟩ := option_bind_some hp
-    obtain ⟨vb, hvb, hp⟩ := option_bind_some hp
-    obtain ⟨ok, hok, hp⟩ := option_bind_some hp
-    obtain ⟨hl, hs⟩ := cmpOp_sound I ht hok
-    have hfirst : evalMath I env (.apply t [a, b]) = some (.bool ok) := by
-      rw [evalMath_strict I env t _ hl]
-      simp [evalMathList, ihl a va ha hva, ihr b vb hb hvb, hs]
-    cases tl with
-    | nil =>
-      simp only [pure, Except.pure, Except.ok.injEq] at hc
-      subst hc
-      cases rest with
-      | nil =>
-        cases ok <;> simp [evalPyLinks] at hp <;> subst hp <;> exact hfirst
-      | cons lk rest' =>
-        obtain ⟨op', e'⟩ := lk
-        simp only [convertLinks] at htl
-        obtain ⟨_, _, htl⟩ := except_bind_ok htl
-        obtain ⟨_, _, htl⟩ := except_bind_ok htl
-        obtain ⟨_, _, htl⟩ := except_bind_ok htl
-        simp [pure, Except.pure] at htl
-    | cons x xs =>
-      simp only [pure, Except.pure, Except.ok.injEq] at hc
-      subst hc
-      rw [evalMath_and, evalAnd_cons, hfirst]
-      cases ok with
-      | false => simp at hp; subst hp; simp [Val.truthy]
-      | true =>
-        simp only [if_true] at hp
-        have := ihrest b vb (x :: xs) v (ihr b vb hb hvb) htl hp
-        simpa [Val.truthy] using this
-  case ifexp =>
-    intro t b o iht ihb iho m v hc hp
-    simp only [convert] at hc
-    obtain ⟨c, hcc, hc⟩ := except_bind_ok hc
-    obtain ⟨x, hx, hc⟩ := except_bind_ok hc
-    obtain ⟨y, hy, hc⟩ := except_bind_ok hc
-    simp only [pure, Except.pure, Except.ok.injEq] at hc
-    subst hc
-    simp only [evalPy] at hp
-    obtain ⟨vc, hvc, hp⟩ := option_bind_some hp
-    have hch : ifexpChildren c x y = [x, c, y] := rfl
-    rw [evalMath_piecewise, hch, evalPieces_three, iht c vc hcc hvc]
-    show (if vc.truthy = true then evalMath I env x else evalMath I env y) = some v
-    by_cases htr : vc.truthy = true
-    · rw [if_pos htr] at hp ⊢
-      exact ihb x v hx hp
-    · rw [if_neg htr] at hp ⊢
-      exact iho y v hy hp
-  case call =>
-    intro f args ih m v hc hp
-    simp only [convert] at hc
-    obtain ⟨name, hname, hc1⟩ := except_bind_ok hc
-    clear hc
-    obtain ⟨⟨t, k, u⟩, hk, hc2⟩ := except_bind_ok hc1
-    clear hc1
-    obtain ⟨rfl, fn, rfl, hcases⟩ := callKind_ok hk
-    dsimp only at hc2
-    obtain ⟨ms, hms, hc3⟩ := except_bind_ok hc2
-    simp only [pure, Except.pure, Except.ok.injEq] at hc3
-    subst hc3
-    simp only [evalPy] at hp
-    obtain ⟨vs, hvs, hp⟩ := option_bind_some hp
-    simp only [Option.map_eq_some_iff] at hp
-    obtain ⟨q, hq, rfl⟩ := hp
-    have hargs := ih ms vs hms hvs
-    -- the Python meaning is that of the bare function name
-    have hsem : (pySem fn).bind (·.eval I (vs.map Val.toNum)) = some q := by
-      cases f with
-      | direct f' =>
-        simp only [calleeName, Except.ok.injEq, Option.some.injEq] at hname
-        subst hname
-        simpa [pyCall] using hq
-      | lib p a =>
-        simp only [calleeName, Except.ok.injEq] at hname
-        split at hname
-        · rename_i hp'
-          simp only [Option.some.injEq] at hname
-          subst hname
-          -- `math.remainder` is not accepted, every other `module.name` means what the bare name means
-          have hnot : ¬ (p = "math" ∧ a = "remainder") := by
-            rintro ⟨rfl, rfl⟩
-            rcases hcases with ⟨_, _, hm⟩ | ⟨_, _, him, _⟩ | ⟨_, hm⟩
-            · exact (remainder_not_unary_nary t).1 hm
-            · simp [calleeIsMath] at him
-            · exact (remainder_not_unary_nary t).2 hm
-          simpa [pyCall, libParents_sub hp', pySemLib_eq hnot] using hq
-        · simp at hname
-      | libDeep => simp [calleeName] at hname
-      | other => simp [calleeName] at hname
-    have hlen : ms.length = args.length ∧ vs.length = args.length :=
-      ⟨convertList_length hms, evalPyList_length hvs⟩
-    rcases hcases with ⟨rfl, hn, hm⟩ | ⟨rfl, hn, _, hm⟩ | ⟨rfl, hm⟩
-    · -- unary
-      obtain ⟨hms1, hvs1⟩ := hlen
-      rw [hn] at hms1 hvs1
-      match ms, vs, hms1, hvs1 with
-      | [m1], [v1], _, _ =>
-        obtain ⟨hl, hs⟩ := unary_entry_sound I hm hsem
-        rw [evalMath_strict I env t _ hl]
-        simp only [if_true, unaryChildren]
-        simp only [evalMathList] at hargs
-        obtain ⟨w1, hw1, hargs⟩ := option_bind_some hargs
-        simp at hargs
-        subst hargs
-        by_cases hlog : (logWithBase && t == MType.fnLog) = true
-        · simp only [hlog, if_true] at hs ⊢
-          simp [evalMathList, evalMath, hw1, hs]
-        · simp only [hlog] at hs ⊢
-          have hs' : applyStrict I t [w1] = some (.num q) := by simpa using hs
-          simp [evalMathList, hw1, hs']
-    · -- binary
-      obtain ⟨hms1, hvs1⟩ := hlen
-      rw [hn] at hms1 hvs1
-      match ms, vs, hms1, hvs1 with
-      | [m1, m2], [v1, v2], _, _ =>
-        obtain ⟨hl, hs⟩ := binary_entry_sound I hm hsem
-        rw [evalMath_strict I env t _ hl]
-        simp [hargs, hs]
-    · -- n-ary
-      obtain ⟨hl, hs⟩ := nary_entry_sound I hm hsem
-      rw [evalMath_strict I env t _ hl]
-      simp [hargs, hs]
-  case attr =>
-    intro p a m v hc hp
-    simp only [convert, convertAttr] at hc
-    by_cases hp' : libParents.contains p = true
-    · rw [if_pos hp'] at hc
-      cases hl : attrConstTable.lookup a with
-      | none => simp [hl] at hc
-      | some m' =>
-        simp only [hl, Except.ok.injEq] at hc
-        subst hc
-        have hm := mem_of_lookup hl
-        simp only [attrConstTable, List.mem_cons, List.mem_nil_iff, Prod.mk.injEq, or_false] at hm
-        simp only [evalPy, pyAttr, libParents_sub hp', if_true] at hp
-        rcases hm with ⟨rfl, rfl⟩ | ⟨rfl, rfl⟩ | ⟨rfl, rfl⟩ | ⟨rfl, rfl⟩ <;>
-          simp +decide at hp <;> simp [evalMath, hp]
-    · rw [if_neg hp'] at hc
-      simp at hc
-  case attrDeep => intro m v hc; simp [convert] at hc
-  case boolop => intro a vals _ m v hc; simp [convert] at hc
-  case other => intro m v hc; simp [convert] at hc
-  case lnil =>
-    intro pm pv ms v _ hc hp
-    simp [convertLinks] at hc
-    subst hc
-    simpa [evalPyLinks, evalAnd] using hp
-  case lcons =>
-    intro op e rest ihe ihrest pm pv ms v hpm hc hp
-    simp only [convertLinks] at hc
-    obtain ⟨t, ht, hc⟩ := except_bind_ok hc
-    obtain ⟨b, hb, hc⟩ := except_bind_ok hc
-    obtain ⟨tl, htl, hc⟩ := except_bind_ok hc
-    simp only [pure, Except.pure, Except.ok.injEq] at hc
-    subst hc
-    simp only [evalPyLinks] at hp
-    obtain ⟨vb, hvb, hp⟩ := option_bind_some hp
-    obtain ⟨ok, hok, hp⟩ := option_bind_some hp
-    obtain ⟨hl, hs⟩ := cmpOp_sound I ht hok
-    have hfirst : evalMath I env (.apply t [pm, b]) = some (.bool ok) := by
-      rw [evalMath_strict I env t _ hl]
-      simp [evalMathList, hpm, ihe b vb hb hvb, hs]
-    rw [evalAnd_cons, hfirst]
-    cases ok with
-    | false => simp at hp; subst hp; simp [Val.truthy]
-    | true =>
-      simp only [if_true] at hp
-      have := ihrest b vb tl v (ihe b vb hb hvb) htl hp
-      simpa [Val.truthy] using this
-  case nil =>
-    intro ms vs hc hp
-    simp [convertList] at hc
-    simp [evalPyList] at hp
-    subst hc; subst hp
-    simp [evalMathList]
-  case cons =>
-    intro e es ihe ihes ms vs hc hp
-    simp only [convertList] at hc
-    obtain ⟨m1, hm1, hc⟩ := except_bind_ok hc
-    obtain ⟨ms1, hms1, hc⟩ := except_bind_ok hc
-    simp only [pure, Except.pure, Except.ok.injEq] at hc
-    subst hc
-    simp only [evalPyList] at hp
-    obtain ⟨v1, hv1, hp⟩ := option_bind_some hp
-    obtain ⟨vs1, hvs1, hp⟩ := option_bind_some hp
-    simp only [Option.some.injEq] at hp
-    subst hp
-    simp [evalMathList, ihe m1 v1 hm1 hv1, ihes ms1 vs1 hms1 hvs1]
+    ∀ e m v, convert e = .ok m → evalPy I env e = some v → evalMath I env m = some v :=
+  convert_sound I env
 
 /-- A construct without MathML counterpart anywhere in an expression makes the export raise. -/
 theorem C08_unsupported_raises :
@@ -265,7 +21,7 @@ theorem C08_unsupported_raises :
     (motive_1 := fun e => hasUnsupported e = true → ∃ err, convert e = .error err)
     (motive_2 := fun es => hasUnsupportedList es = true → ∃ err, convertList es = .error err)
     (motive_3 := fun rest => hasUnsupportedLinks rest = true → ∀ pm, ∃ err, convertLinks pm rest = .error err)
-    ?name ?const ?unary ?binop ?compare ?ifexp ?call ?attr ?attrDeep ?boolop ?other
+    ?name ?const ?unary ?binop ?compare ?ifexp ?call ?attr ?attrDeep ?boolop ?callKw ?other
     ?lnil ?lcons ?nil ?cons).1
   case name => intro id h; simp [hasUnsupported, unsupportedNode] at h
   case const =>
@@ -390,6 +146,7 @@ theorem C08_unsupported_raises :
       · simp at hc
   case attrDeep => intro _; exact exists_err (by simp [convert, isErr])
   case boolop => intro a vals _ _; exact exists_err (by simp [convert, isErr])
+  case callKw => intro _; exact exists_err (by simp [convert, isErr])
   case other => intro _; exact exists_err (by simp [convert, isErr])
   case lnil => intro h; simp [hasUnsupportedLinks] at h
   case lcons =>
@@ -422,26 +179,63 @@ theorem C08_unsupported_raises :
       · obtain ⟨err, he⟩ := ihes h
         exact ⟨err, by simp [convertList, hx, he, bind, Except.bind]⟩
 
-/-- A model function (a single `return`, called with the model names `f.args`) and its exported math
-    agree: the value Python computes from the arguments' values is the value the SBML reading gives the
-    exported tree in the model's own environment.  Covers `IdentifierReplacer`, `_handle_body`,
-    `_convert_node`. -/
-theorem C08_fn_sound (I : Interp) (env : VEnv) (f : PyFn) (e : PyExpr) (m : MathML) (v : Val)
-    (hbody : f.body = [.ret (some e)]) (hfree : calleeFree f.params e = true)
-    (hx : sbmlifyFn f = .ok m) (hv : callFn I env f = some v) : evalMath I env m = some v := by
-  unfold sbmlifyFn at hx
-  obtain ⟨σ, hσ, hx⟩ := except_bind_ok hx
-  have hσ' := zipStrict_eq hσ
-  subst hσ'
-  simp only [hbody, List.map, renameStmt, handleBody, handleBodyFrom, convertStmt] at hx
-  obtain ⟨c, hc, hx⟩ := except_bind_ok hx
-  simp only [Except.ok.injEq] at hx
-  subst hx
-  unfold callFn at hv
-  split at hv
-  · simp only [hbody, evalPyBody] at hv
-    exact C08_math_sound I env _ _ _ hc (rename_sound I env f.params f.args e v hfree hv)
-  · simp at hv
+/-- A model function (called with the model names `f.args`) and its exported math agree: the value Python
+    computes from the arguments' values — the value of the first `return` — is the value the SBML reading
+    gives the exported tree in the model's own environment.  Any body: statements after the first `return`
+    are never reached (finding F-C08-12, repaired: the last statement used to be exported), a body without
+    `return` is refused.  Covers `IdentifierReplacer`, `_handle_body`, `_convert_node`. -/
+theorem C08_fn_sound (I : Interp) (env : VEnv) (f : PyFn) (m : MathML) (v : Val)
+    (hfree : calleeFreeBody f.params f.body = true)
+    (hx : sbmlifyFn f = .ok m) (hv : callFn I env f = some v) : evalMath I env m = some v :=
+  sbmlifyFn_sound I env f m v hfree hx hv
+
+/-- … and a body whose first statement is not a `return <expr>` is refused. -/
+theorem C08_body_without_return_raises (f : PyFn) (h : ∀ e rest, f.body ≠ .ret (some e) :: rest) :
+    ∃ err, sbmlifyFn f = .error err := by
+  unfold sbmlifyFn
+  cases hz : zipStrict f.params f.args with
+  | error err => exact ⟨err, by simp [bind, Except.bind]⟩
+  | ok σ =>
+    have hfirst : bodyFirstReturn = true := rfl
+    simp only [bind, Except.bind, handleBody, hfirst, if_true]
+    cases hb : f.body with
+    | nil => exact ⟨_, rfl⟩
+    | cons s ss =>
+      cases s with
+      | other => exact exists_err (by simp [handleBodyFirst, renameStmt, convertStmt, bind, Except.bind, isErr])
+      | ret oe =>
+        cases oe with
+        | none => exact exists_err (by simp [handleBodyFirst, renameStmt, convertStmt, bind, Except.bind, isErr])
+        | some e => exact absurd hb (h e ss)
+
+/-- Function level of `C08_unsupported_raises`: a body that does not begin with `return <expression>`, or
+    whose returned expression contains a construct without MathML counterpart, makes the export raise
+    (`IdentifierReplacer` renames identifiers only, so the renamed expression is unsupported as well). -/
+theorem C08_fn_unsupported_raises (f : PyFn) (h : bodyUnsupported f.body = true)
+    (hfree : calleeFreeBody f.params f.body = true) :
+    ∃ err, sbmlifyFn f = .error err := by
+  cases hb : f.body with
+  | nil => exact C08_body_without_return_raises f (by intro e rest; rw [hb]; exact fun h => by cases h)
+  | cons s ss =>
+    cases s with
+    | other => exact C08_body_without_return_raises f (by intro e rest; rw [hb]; exact fun h => by cases h)
+    | ret oe =>
+      cases oe with
+      | none => exact C08_body_without_return_raises f (by intro e rest; rw [hb]; exact fun h => by cases h)
+      | some e =>
+        rw [hb] at h
+        simp only [bodyUnsupported, stmtUnsupported] at h
+        unfold sbmlifyFn
+        cases hz : zipStrict f.params f.args with
+        | error err => exact ⟨err, by simp [bind, Except.bind]⟩
+        | ok σ =>
+          have hfirst : bodyFirstReturn = true := rfl
+          have hσ := zipStrict_eq hz
+          subst hσ
+          rw [hb] at hfree
+          simp only [calleeFreeBody, List.all_cons, Bool.and_eq_true] at hfree
+          obtain ⟨err, he⟩ := C08_unsupported_raises _ (by rw [hasUnsupported_rename f.params f.args e hfree.1]; exact h)
+          exact ⟨err, by simp [bind, Except.bind, handleBody, hfirst, hb, renameStmt, handleBodyFirst, convertStmt, he]⟩
 
 /-- Identifiers of the form `[A-Za-z][A-Za-z0-9_]*` are written unchanged (whatever the prefix). -/
 theorem C08_escape_plain (s pre : String) (h : isPlainName s = true) : escapeId s pre = .ok s :=
@@ -454,147 +248,134 @@ theorem C08_escape_injective_on_plain (s t pre pre' : String) (hs : isPlainName 
   exact Except.ok.inj h
 
 /-- Numeric coefficient: whatever its sign, the species reference the exporter writes (reactant with
-    |q| if negative, product otherwise) has net coefficient `q` under the SBML reading. -/
-theorem C08_stoich_sign_numeric (env : VEnv) (d d' : SDoc) (r r' : SRxn) (x sx : String) (q : Rat)
-    (h : exportCoef (d, r) (x, .num q) = .ok (d', r')) (hsx : escapeId x "CPD" = .ok sx)
-    (hfresh : ∀ s ∈ r.reactants ++ r.products, s.species ≠ sx) :
-    d' = d ∧ netCoef env d' r' sx = some q := by
-  have hr : ∀ s ∈ r.reactants, s.species ≠ sx := fun s hs => hfresh s (List.mem_append_left _ hs)
-  have hp : ∀ s ∈ r.products, s.species ≠ sx := fun s hs => hfresh s (List.mem_append_right _ hs)
-  simp only [exportCoef, hsx, bind, Except.bind, pure, Except.pure, Except.ok.injEq, Prod.mk.injEq] at h
-  obtain ⟨rfl, rfl⟩ := h
-  refine ⟨rfl, ?_⟩
-  show netCoef env d (addRef (if q < 0 then negSide else nonnegSide) r ⟨sx, some (absRat q), none⟩) sx = some q
-  by_cases hq : q < 0
-  · rw [if_pos hq, show negSide = Side.reactant from rfl]
-    simp only [addRef, netCoef]
-    rw [sideSum_fresh env d hp, sideSum_fresh_add env d ⟨sx, some (absRat q), none⟩ hr rfl]
-    simp only [refCoef, absRat, hq, if_true, bind, Option.bind, Option.map]
-    congr 1
-    grind
-  · rw [if_neg hq, show nonnegSide = Side.product from rfl]
-    simp only [addRef, netCoef]
-    rw [sideSum_fresh env d hr, sideSum_fresh_add env d ⟨sx, some (absRat q), none⟩ hp rfl]
-    simp only [refCoef, absRat, hq, if_false, bind, Option.bind, Option.map]
-    congr 1
-    grind
+    |q| if negative, product otherwise) has net coefficient `q` under the SBML reading; nothing else changes. -/
+theorem C08_stoich_sign_numeric (env : VEnv) (taken taken' : List String) (d d' : SDoc) (r r' : SRxn)
+    (x : String) (q : Rat) (hx : isPlainName x = true)
+    (h : exportCoef (taken, d, r) (x, .num q) = .ok (taken', d', r'))
+    (hfresh : ∀ s ∈ refsOf r, s.species ≠ x) :
+    taken' = taken ∧ d' = d ∧ netCoefR env r' x = some q := by
+  rcases exportCoef_plain hx h with ⟨q', hc, ht, hd, hr⟩ | ⟨f, rid, hc, _⟩
+  · cases hc
+    exact ⟨ht, hd, by rw [hr]; exact netCoefR_num env r x q hfresh⟩
+  · cases hc
 
-/-- Computed coefficient: the exporter writes an assignment rule holding the exported function and a
-    species reference whose net coefficient is *plus* the value of that rule — the sign of the computed
-    value is kept (finding F-C08-1, repaired). -/
-theorem C08_stoich_sign_computed (env : VEnv) (d d' : SDoc) (r r' : SRxn) (x sx rid : String) (f : PyFn)
-    (h : exportCoef (d, r) (x, .computed f) = .ok (d', r')) (hsx : escapeId x "CPD" = .ok sx)
-    (hrid : escapeId (x ++ "ref") "CPD" = .ok rid) (hrid' : escapeId (x ++ "ref") "AR" = .ok rid)
-    (hfresh : ∀ s ∈ r.reactants ++ r.products, s.species ≠ sx) :
-    (∃ m, sbmlifyFn f = .ok m ∧ lookupLast d'.rules rid = some m) ∧
-      netCoef env d' r' sx = (env rid).map Val.toNum := by
-  have hr : ∀ s ∈ r.reactants, s.species ≠ sx := fun s hs => hfresh s (List.mem_append_left _ hs)
-  have hp : ∀ s ∈ r.products, s.species ≠ sx := fun s hs => hfresh s (List.mem_append_right _ hs)
-  simp only [exportCoef, exportRule, hrid', hsx, hrid, bind, Except.bind, pure, Except.pure] at h
-  cases hm : sbmlifyFn f with
-  | error err => simp [hm] at h
-  | ok m =>
-    simp only [hm, Except.ok.injEq, Prod.mk.injEq] at h
-    obtain ⟨rfl, rfl⟩ := h
-    have hl : lookupLast (d.rules ++ [(rid, m)]) rid = some m := lookupLast_append_self _ _ _
-    refine ⟨⟨m, rfl, hl⟩, ?_⟩
-    show netCoef env _ (addRef computedSide r ⟨sx, none, some rid⟩) sx = _
-    rw [show computedSide = Side.product from rfl]
-    simp only [addRef, netCoef]
-    rw [sideSum_fresh env _ hr, sideSum_fresh_add env _ ⟨sx, none, some rid⟩ hp rfl]
-    simp only [refCoef, hl]
-    cases env rid with
-    | none => rfl
-    | some w =>
-      simp only [bind, Option.bind, Option.map]
-      congr 1
-      grind
+/-- Computed coefficient: the exporter writes an assignment rule holding the exported function, under a
+    name nothing else in the model has (`taken`: finding F-C08-7, repaired), and a species reference whose
+    net coefficient is *plus* the value of that rule — the sign of the computed value is kept (finding
+    F-C08-1, repaired). -/
+theorem C08_stoich_sign_computed (env : VEnv) (taken taken' : List String) (d d' : SDoc) (r r' : SRxn)
+    (x : String) (f : PyFn) (hx : isPlainName x = true)
+    (h : exportCoef (taken, d, r) (x, .computed f) = .ok (taken', d', r'))
+    (hfresh : ∀ s ∈ refsOf r, s.species ≠ x) :
+    ∃ rid m, rid ∉ taken ∧ taken' = rid :: taken ∧ sbmlifyFn f = .ok m ∧
+      d' = { d with rules := d.rules ++ [(rid, m)] } ∧ lookupLast d'.rules rid = some m ∧
+      netCoefR env r' x = (env rid).map Val.toNum := by
+  rcases exportCoef_plain hx h with ⟨q', hc, _⟩ | ⟨f', rid, hc, hok, hnew, _, ht, hd, hr⟩
+  · cases hc
+  · cases hc
+    refine ⟨rid, mathOf f, by simpa using hnew, ht, hok, hd, ?_, ?_⟩
+    · rw [hd]; exact lookupLast_append_self _ _ _
+    · rw [hr]; exact netCoefR_computed env r x rid hfresh
 
-/-- A whole `rxn.stoichiometry` (keys `[A-Za-z][A-Za-z0-9_]*`, pairwise distinct as dict keys are): after
-    `exportCoefs` every species has, under the SBML reading, exactly the coefficient the model gives it —
-    the number itself, or plus the value of the rule `<species>ref` for a computed coefficient — and
-    species outside the dict keep the net coefficient they had.  (One reaction; across reactions the
-    rule names can clash: finding F-C08-7.) -/
-theorem C08_reaction_stoich (env : VEnv) :
-    ∀ (l : List (String × PyCoef)) (d d' : SDoc) (r r' : SRxn),
-      exportCoefs (d, r) l = .ok (d', r') →
-      (∀ kv ∈ l, isPlainName kv.1 = true) → (l.map (·.1)).Nodup →
-      (∀ kv ∈ l, ∀ s ∈ refsOf r, s.species ≠ kv.1) →
-      (∀ kv ∈ l, netCoef env d' r' kv.1 = coefVal env kv) ∧
-      (∀ z, (∀ kv ∈ l, kv.1 ≠ z) →
-        (∀ kv ∈ l, ∀ s ∈ refsOf r, s.species = z → s.id ≠ some (kv.1 ++ "ref")) →
-        netCoef env d' r' z = netCoef env d r z) := by
-  intro l
-  induction l with
-  | nil =>
-    intro d d' r r' h _ _ _
-    simp only [exportCoefs, Except.ok.injEq, Prod.mk.injEq] at h
-    obtain ⟨rfl, rfl⟩ := h
-    exact ⟨fun kv hkv => (by cases hkv), fun z _ _ => rfl⟩
-  | cons kv rest ih =>
-    intro d d' r r' h hplain hnodup hfresh
-    obtain ⟨x, c⟩ := kv
-    simp only [exportCoefs] at h
-    obtain ⟨⟨d1, r1⟩, h1, h2⟩ := except_bind_ok h
-    have hx : isPlainName x = true := hplain (x, c) List.mem_cons_self
-    have hplain' : ∀ kv ∈ rest, isPlainName kv.1 = true := fun kv hk => hplain kv (List.mem_cons_of_mem _ hk)
-    simp only [List.map_cons, List.nodup_cons] at hnodup
-    obtain ⟨hxnot, hnodup'⟩ := hnodup
-    have hxne : ∀ kv ∈ rest, kv.1 ≠ x := by
-      intro kv hk e
-      exact hxnot (List.mem_map.mpr ⟨kv, hk, e⟩)
-    have hfx : ∀ s ∈ refsOf r, s.species ≠ x := hfresh (x, c) List.mem_cons_self
-    -- references of r1: those of r plus one for x whose id is none or x ++ "ref"
-    have hrefs : ∀ s ∈ refsOf r1, s ∈ refsOf r ∨ (s.species = x ∧ (s.id = none ∨ s.id = some (x ++ "ref"))) := by
-      intro s hs
-      rcases exportCoef_shape hx h1 with ⟨q, _, _, hr1⟩ | ⟨f, m, _, _, _, hr1⟩
-      · rw [hr1] at hs
-        rcases (refsOf_addRef _ _ _ s).mp hs with h | h
-        · exact .inl h
-        · exact .inr (by rw [h]; exact ⟨rfl, .inl rfl⟩)
-      · rw [hr1] at hs
-        rcases (refsOf_addRef _ _ _ s).mp hs with h | h
-        · exact .inl h
-        · exact .inr (by rw [h]; exact ⟨rfl, .inr rfl⟩)
-    have hfresh' : ∀ kv ∈ rest, ∀ s ∈ refsOf r1, s.species ≠ kv.1 := by
-      intro kv hk s hs
-      rcases hrefs s hs with h | ⟨h, _⟩
-      · exact hfresh kv (List.mem_cons_of_mem _ hk) s h
-      · rw [h]; exact fun e => hxne kv hk e.symm
-    obtain ⟨iha, ihb⟩ := ih d1 d' r1 r' h2 hplain' hnodup' hfresh'
-    -- the entry itself, right after it has been written
-    have hhead1 : netCoef env d1 r1 x = coefVal env (x, c) := by
-      have hfr : ∀ s ∈ r.reactants ++ r.products, s.species ≠ x := hfx
-      cases c with
-      | num q => exact (C08_stoich_sign_numeric env d d1 r r1 x x q h1 (escapeId_plain "CPD" hx) hfr).2
-      | computed f =>
-        have hxr := isPlainName_append_ref hx
-        exact (C08_stoich_sign_computed env d d1 r r1 x x (x ++ "ref") f h1 (escapeId_plain "CPD" hx)
-          (escapeId_plain "CPD" hxr) (escapeId_plain "AR" hxr) hfr).2
-    refine ⟨?_, ?_⟩
-    · intro kv hk
-      rcases List.mem_cons.mp hk with rfl | hk'
-      · -- later entries do not disturb it
-        have := ihb x hxne (by
-          intro kv' hk' s hs hsx
-          rcases hrefs s hs with h | ⟨_, hid | hid⟩
-          · exact absurd hsx (hfx s h)
-          · rw [hid]; exact fun e => by cases e
-          · rw [hid]
-            intro e
-            exact hxne kv' hk' (append_ref_inj (Option.some.inj e)).symm)
-        rw [this]
-        exact hhead1
-      · exact iha kv hk'
-    · intro z hz hid
-      have hxz : x ≠ z := hz (x, c) List.mem_cons_self
-      have h1z := netCoef_frame env hx h1 hxz (hid (x, c) List.mem_cons_self)
-      have := ihb z (fun kv hk => hz kv (List.mem_cons_of_mem _ hk)) (by
-        intro kv' hk' s hs hsz
-        rcases hrefs s hs with h | ⟨h, _⟩
-        · exact hid kv' (List.mem_cons_of_mem _ hk') s h hsz
-        · exact absurd (h.symm.trans hsz) hxz)
-      rw [this, h1z]
+/-- `netCoefR` is the SBML reading `netCoef` of a reaction in every document that holds a rule for each
+    of the reaction's species-reference ids — which is what the exporter writes. -/
+theorem C08_netCoef_reading (env : VEnv) (d : SDoc) (r : SRxn) (x : String)
+    (h : ∀ s ∈ refsOf r, ∀ i, s.id = some i → (lookupLast d.rules i).isSome = true) :
+    netCoef env d r x = netCoefR env r x :=
+  netCoef_eq_R env d r x h
+
+/-- A whole `rxn.stoichiometry` (keys `[A-Za-z][A-Za-z0-9_]*`, pairwise distinct as dict keys are): the
+    rules written for it (`R`) have fresh, pairwise distinct names; every species has, under the SBML
+    reading, exactly the coefficient the model gives it — the number itself, or plus the value of its own
+    rule for a computed coefficient — and species outside the dict keep the net coefficient they had. -/
+theorem C08_reaction_stoich (l : List (String × PyCoef)) (taken taken' : List String) (d d' : SDoc) (r r' : SRxn)
+    (h : exportCoefs (taken, d, r) l = .ok (taken', d', r'))
+    (hplain : ∀ kv ∈ l, isPlainName kv.1 = true) (hnodup : (l.map (·.1)).Nodup)
+    (hfresh : ∀ s ∈ refsOf r, s.species ∉ l.map (·.1)) :
+    ∃ R : List (String × MathML),
+      d' = { d with rules := d.rules ++ R } ∧
+      (∀ k ∈ R.map (·.1), k ∉ taken ∧ isPlainName k = true) ∧ (R.map (·.1)).Nodup ∧
+      (∀ k, k ∈ taken' ↔ k ∈ R.map (·.1) ∨ k ∈ taken) ∧
+      (∀ s ∈ refsOf r', s ∈ refsOf r ∨ (s.species ∈ l.map (·.1) ∧ ∀ i, s.id = some i → i ∈ R.map (·.1))) ∧
+      (∀ env x q, (x, PyCoef.num q) ∈ l → netCoefR env r' x = some q) ∧
+      (∀ env x f, (x, PyCoef.computed f) ∈ l → sbmlifyFn f = .ok (mathOf f) ∧
+        ∃ rid, (rid, mathOf f) ∈ R ∧ netCoefR env r' x = (env rid).map Val.toNum) ∧
+      (∀ env z, z ∉ l.map (·.1) → netCoefR env r' z = netCoefR env r z) :=
+  exportCoefs_spec l taken taken' d d' r r' h hplain hnodup hfresh
+
+/-! ### the whole model: export, then the SBML reading of the document
+
+`wellNamed m`: component names `[A-Za-z][A-Za-z0-9_]*` and pairwise distinct, stoichiometry keys likewise, no
+function uses one of its parameters as a function / module name.  Direction: whatever the original model
+computes, the document computes (a value Python does not define — division by zero, an unknown name —
+is not constrained). -/
+
+/-- every component comes back under its name -/
+theorem C08_roundtrip_names (m : PyModel) (d : SDoc) (hw : wellNamed m = true) (hx : exportModel m = .ok d) :
+    (∀ n ∈ m.params.map (·.1), n ∈ d.params.map (·.1)) ∧ (∀ n ∈ m.vars.map (·.1), n ∈ d.species.map (·.1)) ∧
+    (∀ n ∈ m.derived.map (·.1), n ∈ d.rules.map (·.1)) ∧ (∀ n ∈ m.rxns.map (·.name), n ∈ d.rxns.map (·.id)) := by
+  have hE := exported_of_export hw hx
+  refine ⟨?_, ?_, ?_, ?_⟩
+  · intro n hn
+    cases hl : m.params.lookup n with
+    | none => exact absurd hn (not_mem_keys_of_lookup_none hl)
+    | some i =>
+      cases i with
+      | val q => exact mem_keys_of_lookup_some (hE.par_val n q hl).1
+      | ia f => exact mem_keys_of_lookup_some (hE.par_ia n f hl).1
+  · intro n hn
+    cases hl : m.vars.lookup n with
+    | none => exact absurd hn (not_mem_keys_of_lookup_none hl)
+    | some i =>
+      cases i with
+      | val q => exact mem_keys_of_lookup_some (hE.var_val n q hl).1
+      | ia f =>
+        -- a variable with an initial assignment: its species carries no value, the look-up is `some none`
+        have : d.species.lookup n ≠ none := by
+          intro hnone
+          have := hE.var_none
+          -- established directly from the document instead
+          exact absurd hnone (by
+            have hk := exported_species_key hw hx n hn
+            intro h0
+            exact not_mem_keys_of_lookup_none h0 hk)
+        cases hs : d.species.lookup n with
+        | none => exact absurd hs this
+        | some v => exact mem_keys_of_lookup_some hs
+  · intro n hn
+    cases hl : m.derived.lookup n with
+    | none => exact absurd hn (not_mem_keys_of_lookup_none hl)
+    | some f =>
+      obtain ⟨h1, _⟩ := hE.der n f hl
+      exact List.mem_map.mpr ⟨_, mem_keys_of_lookupLast_some h1, rfl⟩
+  · intro n hn
+    obtain ⟨rx, hrx, rfl⟩ := List.mem_map.mp hn
+    exact rel_ids hE.rxns rx hrx
+
+/-- initial values of variables and parameters (initial assignments included) -/
+theorem C08_roundtrip_init (I : Interp) (m : PyModel) (d : SDoc) (n : String) (v : Val)
+    (hw : wellNamed m = true) (hx : exportModel m = .ok d) (hv : pyInit I m m.fuel n = some v) :
+    docInit I d d.fuel n = some v := by
+  have hE := exported_of_export hw hx
+  exact docInit_mono I d (Nat.le_of_succ_le hE.fuel) n v
+    (init_transfer I hE (fnsFree_of_wellNamed hw) m.fuel n v hv)
+
+/-- derived quantities and fluxes at every state -/
+theorem C08_roundtrip_values (I : Interp) (m : PyModel) (d : SDoc) (st : List (String × Rat)) (n : String) (v : Val)
+    (hw : wellNamed m = true) (hx : exportModel m = .ok d) (hv : pyValue I m st m.fuel n = some v) :
+    docValue I d st d.fuel n = some v := by
+  have hE := exported_of_export hw hx
+  exact docValue_mono I d st (Nat.le_of_succ_le hE.fuel) n v
+    (value_transfer I hE (fnsFree_of_wellNamed hw) st m.fuel n v hv)
+
+/-- derivatives at every state (the state assigns values to names of the model only) -/
+theorem C08_roundtrip_rhs (I : Interp) (m : PyModel) (d : SDoc) (st : List (String × Rat)) (x : String) (v : Rat)
+    (hw : wellNamed m = true) (hst : ∀ n q, st.lookup n = some q → n ∈ m.names)
+    (hx : exportModel m = .ok d) (hv : pyRhs I m st x = some v) : docRhs I d st x = some v := by
+  have hE := exported_of_export hw hx
+  rw [pyRhs_eq] at hv
+  rw [docRhs_eq]
+  exact rhs_list I hE (fnsFree_of_wellNamed hw) st hst x hE.rxns (fun _ h => h) v hv
 
 /-! ### names (finding F-C08-5: known) -/
 
@@ -626,9 +407,9 @@ example : isRoundTripName "ATP_c" = true := by decide
 example : isRoundTripName "x.c" = false := by decide
 example : isRoundTripName "lambda" = false := by decide
 
-/-! ### species-reference ids (finding F-C08-7: known) -/
+/-! ### species-reference ids (finding F-C08-7, repaired): the former counterexample -/
 
-/-- two reactions, each with a computed coefficient on `y` -/
+/-- two reactions, each with a computed coefficient on `y` (before the repair both wrote the rule `yref`) -/
 def clashModel : PyModel :=
   let coef (c : Rat) : PyFn := ⟨["p"], [.ret (some (.binop .mult (.name "p") (.const (.num c))))], ["k"]⟩
   let rate (v : String) : PyFn := ⟨["a", "b"], [.ret (some (.binop .mult (.name "a") (.name "b")))], ["k", v]⟩
@@ -636,26 +417,22 @@ def clashModel : PyModel :=
     rxns := [⟨"r1", rate "x", [("x", .num (-1)), ("y", .computed (coef 2))]⟩,
              ⟨"r2", rate "y", [("y", .computed (coef 3))]⟩] }
 
-/-- Full statement at model level — the derivative of every variable survives the round trip — is
-    false of the code: both reactions write the rule `yref`, the importer keeps the later one. -/
-theorem C08_roundtrip_rhs_fails :
-    ¬ ∀ (m : PyModel) (d : SDoc) (st : List (String × Rat)) (x : String),
-        exportModel m = .ok d → docRhs (fun _ _ => none) d st x = pyRhs (fun _ _ => none) m st x := by
-  intro h
-  have hd : ∃ d, exportModel clashModel = .ok d ∧
-      docRhs (fun _ _ => none) d [("x", 2), ("y", 3)] "y" ≠
-        pyRhs (fun _ _ => none) clashModel [("x", 2), ("y", 3)] "y" := by
-    refine ⟨_, rfl, ?_⟩
-    decide +kernel
-  obtain ⟨d, hd1, hd2⟩ := hd
-  exact hd2 (h clashModel d _ _ hd1)
+/-- non-vacuity of the round-trip theorems: the model is well named, it is exported, its derivative is
+    defined — and the document gives the same (117; the shared rule gave 135) -/
+example : wellNamed clashModel = true := by decide +kernel
+example : ∃ d, exportModel clashModel = .ok d ∧
+    pyRhs (fun _ _ => none) clashModel [("x", 2), ("y", 3)] "y" = some 117 ∧
+    docRhs (fun _ _ => none) d [("x", 2), ("y", 3)] "y" = some 117 := by
+  refine ⟨_, rfl, ?_, ?_⟩ <;> decide +kernel
 
 /-! ### facts about the tables and structural choices read from `_export.py` -/
 
 theorem C08_tables :
     ifexpOrder = [.body, .test, .orelse] ∧ computedSide = .product ∧ negSide = .reactant ∧
     nonnegSide = .product ∧ unknownCallRaises = true ∧ arityChecked = true ∧ logWithBase = true ∧
-    iaSetterExists = true ∧ libParents = pyLibs ∧ binaryNumpyOnly = true := by
+    iaSetterExists = true ∧ libParents = pyLibs ∧ binaryNumpyOnly = true ∧ bodyFirstReturn = true ∧
+    refFresh = true ∧ refSuffix = "ref" ∧
+    exportOrder = [.params, .derivedParams, .vars, .derivedVars, .rxns] := by
   decide
 
 /-- why `math.remainder` must not be exported as `rem` (finding F-C08-11, repaired): the IEEE remainder
